@@ -159,5 +159,11 @@ def get_ast(func):
     except (OSError, IOError):
         return None
     source = inspect.cleandoc('\n' + rawsource)
-    module = ast.parse(source)
-    return module.body[0]
+    try:
+        module = ast.parse(source)
+    except SyntaxError:
+        return None
+    func_ast = module.body[0]
+    if not isinstance(func_ast, (ast.FunctionDef, ast.AsyncFunctionDef)):
+        return None
+    return func_ast
